@@ -250,7 +250,9 @@ func findSubValue(s string, sub, backup string, maxSize int) (value string) {
 			return
 		}
 		// 用backup再找一遍
-		n = strings.Index(s, backup)
+		// the alternative spelling is a key only when followed by its colon ("Sub:" must not match "Submit_Date:")
+		sub = backup + ":"
+		n = strings.Index(s, sub)
 		if n == -1 {
 			return
 		}
